@@ -12,7 +12,7 @@ LEVEL = 'model_checking'
 RULE = ('every history (operation sequence) of depth d over the event alphabet {asserta/assertz of p(a) p(b) p(X) '
         'p(f(Y)) q(a,b) flag; retract of p(a) p(X) p(f(X)) q(X,Y) flag nosuch(X), retract(p(X)) run to exhaustion / '
         'abandoned after the 1st / after the 2nd answer; retractall of p(a) p(_) flag nosuch(_); patterns with a repeated variable q(X,X) and partially bound q(X,a) over q/2 facts; clear}, from 4 initial '
-        'stores, in 3 dress-ups (Python API - for histories with a clear also with the Atom objects of the caller created once and held across the clear; compiled clauses; compiled clauses receiving the goal in a variable bound '
+        'stores, in 3 dress-ups (Python API - for histories with a clear also with the Atom objects of the caller created once and held across the clear, and (full alphabet) with the query objects of the whole history constructed first and evaluated later, which must change nothing; compiled clauses; compiled clauses receiving the goal in a variable bound '
         'at run time). Each history is replayed on a fresh engine with the reference model (ordered lists, copy on '
         'assert) stepped alongside; after EVERY step the answers of the operation and the contents of p/1 q/2 flag/0 '
         'nosuch/1 read back with all-variable queries must equal the model\'s. states = distinct canonical store '
@@ -147,6 +147,43 @@ def do_event_impl(yp, ev, i, dress, pytext):
     return out
 
 
+# a 5th dress-up: the Python API with the query objects of the WHOLE history constructed first (in
+# order) and each evaluated at its own position; constructing yp.query(...) without advancing it
+# is not an operation: nothing may happen before the first next()
+DEFERRED = 'api-queries-constructed-first'
+
+
+def construct(yp, ev):
+    if ev[0] == 'clear':
+        return None
+    vm = {}
+    if ev[0] == 'assert':
+        return (yp.query('assert' + ev[1], [impl.to_engine(yp, ev[2], vm)]), [], None)
+    pat = ev[1]
+    obsv = [('v', k) for k in term_vars(pat) if not isinstance(k, tuple)]
+    q = yp.query(ev[0], [impl.to_engine(yp, pat, vm)])
+    obs = [impl.to_engine(yp, v, vm) for v in obsv]
+    return (q, obs, ev[2] if ev[0] == 'retract' and ev[2] != 'all' else None)
+
+
+def evaluate(yp, pre):
+    if pre is None:
+        yp.clear()
+        return ['cleared']
+    q, obs, limit = pre
+    out = []
+    for _ in q:
+        out.append(impl.observe(obs))
+        if limit is not None and len(out) >= limit:
+            q.close()
+            break
+        if len(out) > 20:
+            q.close()
+            out.append('runaway')
+            break
+    return out
+
+
 def do_event_ref(ref, ev):
     if ev[0] == 'clear':
         ref.db = {}
@@ -204,7 +241,7 @@ def run_history(dress, init, hist, pytext):
         yp = HeldAtoms(yp)
         for nm in ATOM_NAMES:
             yp.atom(nm)
-    elif dress != 'api':
+    elif dress not in ('api', DEFERRED):
         yp.load_script_from_string(pytext, fn=impl.SCRIPT_FN)
     ref = Ref()
     for t in init:
@@ -214,13 +251,29 @@ def run_history(dress, init, hist, pytext):
     steps = 0
     start = readback_ref(ref)
     trace = []
+    pre = None
+    if dress == DEFERRED:
+        try:
+            pre = [construct(yp, EVENTS[ei]) for ei in hist]
+        except Exception as e:  # noqa: BLE001
+            return ('violation', '%s:construct:raises:%s' % (dress, impl.exc_sig(e)), describe(dress, init, [event_name(EVENTS[ei]) for ei in hist]) + 'constructing the query objects raised %r' % (e,))
+        try:
+            rb = readback_impl(yp)
+        except Exception as e:  # noqa: BLE001
+            rb = repr(e)
+        if rb != start:
+            return ('violation', '%s:constructing-a-query-changes-the-store' % dress,
+                    describe(dress, init, [event_name(EVENTS[ei]) for ei in hist]) + 'after only CONSTRUCTING the query objects (none advanced) the store reads\n  %s\nbut should still be\n  %s'
+                    % (show_store(rb) if not isinstance(rb, str) else rb, show_store(start)))
     for step, ei in enumerate(hist):
         ev = EVENTS[ei]
         trace.append(event_name(ev))
         exp = do_event_ref(ref, ev)
+        if ev[0] == 'assert' and pre is not None:
+            exp = [()]
         try:
             with watchdog(60):
-                got = do_event_impl(yp, ev, ei, dress, pytext)
+                got = evaluate(yp, pre[step]) if pre is not None else do_event_impl(yp, ev, ei, dress, pytext)
                 steps += 1
         except Hang as e:
             return ('violation', 'hang:' + ev[0], describe(dress, init, trace) + str(e))
@@ -265,6 +318,8 @@ def plan(tier):
     for alpha, depth, dresses in specs:
         if alpha in ('full', 'core'):
             dresses = list(dresses) + [HELD]
+        if alpha == 'full':
+            dresses = list(dresses) + [DEFERRED]
         for dress in dresses:
             for ii in range(len(INITIAL)):
                 if alpha == 'core8' and ii >= 2:
@@ -288,7 +343,7 @@ def run_shard(spec):
     alpha, depth, dress, ii, k, n = spec
     acc = Acc()
     pytext = None
-    if dress not in ('api', HELD):
+    if dress not in ('api', HELD, DEFERRED):
         try:
             pytext = compile_cached(show_program(script_for(dress)))
         except Exception as e:  # noqa: BLE001
@@ -323,7 +378,7 @@ def run_shard(spec):
 
 def replay(case):
     dress = case['dress']
-    pytext = None if dress in ('api', HELD) else impl.compile_text(show_program(script_for(dress)))
+    pytext = None if dress in ('api', HELD, DEFERRED) else impl.compile_text(show_program(script_for(dress)))
     r = run_history(dress, INITIAL[case['init']], case['hist'], pytext)
     if r[0] == 'violation':
         return [(r[1], r[2])]
